@@ -51,6 +51,11 @@ Theorem C41_oracle : forall c, valid c -> known c = 0 -> oracle c (run c) = true
 Proof. exact oracle_holds. Qed.
 Print Assumptions C41_oracle.
 
+(* saving never panics, whatever the configuration holds (the oracle rejects a panic for every case) *)
+Theorem C41_never_panics : forall c, run c <> [-2].
+Proof. exact never_panics. Qed.
+Print Assumptions C41_never_panics.
+
 (* known finding: a filled thumbprint cache (the one skipped field) does not survive *)
 Theorem C41_known_1_refuted : exists c, known c = 1 /\ valid c /\ oracle c (run c) = false.
 Proof. exact known_1_refuted. Qed.
